@@ -66,6 +66,9 @@ AddListener(op, e, newseq) ==
   /\ lst' = [lst EXCEPT ![e] = newseq] /\ nn' = nn + 1
   /\ UNCHANGED <<flt, nf, frames, ndisp, bad>> /\ UQ
 OpAppendL(e) == AddListener("al", e, Append(lst[e], nn + 1)) /\ H("al", e, 0)
+\* listeners wrapped by conditionalFunctor ("aw") / argumentAdapter ("aa"): for the generator they are listeners like any other
+\* (whether a conditionalFunctor runs depends on the argument value, which only the trace specification follows)
+OpAppendW(op, e) == AddListener(op, e, Append(lst[e], nn + 1)) /\ H(op, e, 0)
 OpPrependL(e) == AddListener("pl", e, <<nn + 1>> \o lst[e]) /\ H("pl", e, 0)
 OpInsertL(e, h) == /\ h \in 0..nn /\ (h = 0 \/ \A x \in Events : x # e => ~InSeq(lst[x], h))
                    /\ AddListener("il", e, IF InSeq(lst[e], h) THEN LET p == Pos(lst[e], h) IN SubSeq(lst[e], 1, p - 1) \o <<nn + 1>> \o SubSeq(lst[e], p, Len(lst[e]))
@@ -216,7 +219,7 @@ Tau ==
              /\ frames' = PopF
              /\ UNCHANGED <<occ, bad>>
 
-Next == \/ \E e \in Events : \/ OpAppendL(e) \/ OpPrependL(e) \/ OpDispatch(e) \/ OpEnqueue(e)
+Next == \/ \E e \in Events : \/ OpAppendL(e) \/ OpPrependL(e) \/ OpAppendW("aw", e) \/ OpAppendW("aa", e) \/ OpDispatch(e) \/ OpEnqueue(e)
                              \/ \E h \in 0..MaxNodes : OpInsertL(e, h) \/ OpRemoveL(e, h) \/ OpQueryL("ol", e, h)
                              \/ OpQueryL("hl", e, 0) \/ OpQueryL("fl", e, 0)
         \/ OpAppendF \/ \E h \in 1..MaxFilters : OpRemoveF(h)
